@@ -104,6 +104,8 @@ impl PkeSealingVersion for V1 {
         mac.update(b"\x01k1.seal.");
         mac.update(r.as_bytes());
         let (ek, n) = mac.finalize_reset().into_bytes().split();
+        #[cfg(paseto_verif)]
+        let n = crate::verif::iv_override(n);
 
         mac.update(b"\x02k1.seal.");
         mac.update(r.as_bytes());
@@ -173,6 +175,8 @@ impl PkeUnsealingVersion for V1 {
         mac.update(b"\x01k1.seal.");
         mac.update(r.as_bytes());
         let (ek, n) = mac.finalize().into_bytes().split();
+        #[cfg(paseto_verif)]
+        let n = crate::verif::iv_override(n);
 
         ctr::Ctr64BE::<aes::Aes256>::new(&ek, &n).apply_keystream(edk);
 
